@@ -11,6 +11,7 @@ import (
 type G struct {
 	Name   string      // unique instance name, used in op lines
 	Model  string      // identifier of the Lean model carrier ("" = none, compared Go-to-Go only)
+	Math   string      // identifier of the mathematical object (instances sharing it must agree bit-for-bit)
 	Group  kyber.Group // the instance
 	Suite  any         // the suite it came from (hash/xof/random/encoding), may be nil
 	Q      *big.Int    // group order
@@ -32,7 +33,16 @@ func order(g kyber.Group) *big.Int {
 }
 
 func mk(name, model, family, kind string, g kyber.Group, suite any, embed, hash bool) *G {
-	return &G{Name: name, Model: model, Group: g, Suite: suite, Q: order(g), Family: family, Kind: kind, CanEmbed: embed, CanHash: hash}
+	math := model
+	if math == "" {
+		// bn256-g2 -> bn256g2 ; kilic-g2 / circl-g2 / gnark-g2 -> bls12381g2
+		pre := name[:len(name)-3]
+		if pre == "kilic" || pre == "circl" || pre == "gnark" {
+			pre = "bls12381"
+		}
+		math = pre + kind
+	}
+	return &G{Name: name, Model: model, Math: math, Group: g, Suite: suite, Q: order(g), Family: family, Kind: kind, CanEmbed: embed, CanHash: hash}
 }
 
 // ByName finds a group instance.
